@@ -52,6 +52,8 @@ func c12LeanInput(s c12Seq) map[string]interface{} {
 		case s.Owners <= 1:
 			if len(op.Vals) > 0 && len(op.Vals[0]) > 0 {
 				vals = [][]int{op.Vals[0]}
+			} else if op.Empty {
+				vals = [][]int{{}} // ONE argument holding no value (an empty slice): the save still runs
 			}
 		default:
 			for i := 0; i < s.Owners; i++ {
@@ -184,7 +186,7 @@ func init() {
 			kinds = append(kinds, k.Name)
 		}
 		// half of the sequences run INSIDE the patterns of the listed findings: the model reproduces the defects too
-		cfg := c12GenCfg{Kinds: kinds, Unscoped: 0.4, Slice: 0.4, MaxLen: 8, Avoid: 0.5}
+		cfg := c12GenCfg{Kinds: kinds, Unscoped: 0.4, Slice: 0.4, MaxLen: 8, Avoid: 0.5, Tie: true}
 		var batch []c12Seq
 		for i := 0; i < n && !expired(); i++ {
 			s := c12GenSeq(rng, cfg)
